@@ -8,10 +8,20 @@
   reference: key ↦ (present, flags, version list), a stack of marks, len/size defined by counting.
   `abs` reads a `Spec` off a `VLog`; `Inv` is the representation invariant (links well formed, counters exact, …).
 
-  NOT modelled, tied to the reference only by the differential (harness/c08): the tree node algorithms of art/ and rbt/
-  (lookup, insertion, node growth, prefix split, rebalancing, iterator seek), the arena's block arithmetic.
+  Two further layers are modelled and proved:
+  * the ORDERED-MAP layer: the key order is a strict total order and every iterator answer (plain / reverse / with flag-only
+    keys / snapshot) is exactly the in-range part of the map in strictly ascending (descending) key order, for every call
+    sequence (`iter_is_sorted_filter`, `snapIter_is_sorted_filter`, `key_order_strict_total`);
+  * the NODE-CONTAINER layer of the radix tree (Model/ArtNode.lean ↔ art_node.go node4/16/48/256: findChild, addChild with
+    growth, replaceChild, iteration order), driven directly in the differential through the `n*` ops
+    (`artnode_insert_lookup`, `artnode_addChild`, `artnode_replaceChild`).
+  STILL tied to the reference only by the differential (harness/c08): the PATH logic of the radix tree (recursiveInsert /
+  search / expandLeafIfNeeded / expandNode: prefix compression, the 20-byte in-node prefix with optimistic matching, in-place
+  leaves, lazy expansion), iterator seek with bounds inside the tree, the whole red-black tree (rotations, recolouring), the
+  arena's block arithmetic, the node allocator and its free lists.
 -/
 import ClientGoVerif.Proofs.MemBufOrder
+import ClientGoVerif.Proofs.ArtNode
 namespace CGV.Props.C08
 open CGV CGV.MemBuf
 
@@ -268,6 +278,33 @@ example :
       = [.ok, .num 1, .ok, .num 1, .ok, .ok, .ok, .ok, .err .entryTooLarge, .ok, .val [0xaa], .notFound, .flags 2] := by
   decide
 
+/-! ## iterator invalidation (ART's WriteSeqNo) -/
+
+/-- A `Set` that is applied (answer ok, or the buffer-limit error that is reported after the write) bumps the write
+    sequence number — so an iterator created before it, which remembers the old number, fails its check — and a `Set` that is
+    rejected (empty value, key too large, entry too large) leaves it alone, as do all read calls. -/
+theorem write_bumps_seq (q : VLog.Seq) (m : VLog) (k v : Bytes) (ops : List Nat) :
+    ((VLog.seqStep q m (.set k v ops)).write = q.write + 1 ↔
+      ((m.step (.set k v ops)).2 = .ok ∨ (m.step (.set k v ops)).2 = .err .txnTooLarge)) ∧
+    (VLog.seqStep q m (.get k)).write = q.write ∧ (VLog.seqStep q m (.iter k v false false)).write = q.write ∧
+    (VLog.seqStep q m (.snapGet k)).write = q.write := by
+  refine ⟨?_, rfl, rfl, rfl⟩
+  simp only [VLog.seqStep, VLog.step, VLog.write]
+  by_cases hv : v.isEmpty = true
+  · simp [hv]
+  · have hv' : v.isEmpty = false := by simpa using hv
+    by_cases hk : k.length > Gen.MemLimits.maxKeyLen
+    · simp [hv', hk]
+    · by_cases he : k.length + v.length > m.entryLimit
+      · simp [hv', hk, he, Spec.entryTooLarge]
+      · simp only [hv', hk, he, Bool.false_or, decide_false, Bool.false_eq_true, if_false, Spec.entryTooLarge]
+        constructor
+        · intro _
+          split
+          · exact Or.inr rfl
+          · exact Or.inl rfl
+        · intro _; trivial
+
 /-! ## the buffer as an ordered map: what the iterators yield -/
 
 /-- Iter / IterReverse / IterWithFlags / IterReverseWithFlags, after ANY sequence of calls: the answer is exactly the set of
@@ -305,8 +342,44 @@ theorem key_order_strict_total (a b c : Bytes) :
     (a ≠ b → Bytes.lt a b = false → Bytes.lt b a = true) :=
   ⟨blt_irrefl a, blt_trans, blt_total⟩
 
+/-! ## the inner-node containers of the radix tree (node4 / node16 / node48 / node256) -/
+
+/-- Any sequence of `addChild` calls with distinct bytes on an empty node4 — across the growth steps 4 → 16 → 48 → 256 — yields
+    a node in which `findChild` finds exactly the inserted children (linear scan, binary search, slot index or direct table,
+    whichever the node kind uses), that holds as many children as were inserted, whose kind is determined by that count
+    (≤ 4, ≤ 16, ≤ 48, more), and whose children the iterator visits in strictly ascending byte order, each exactly once. -/
+theorem artnode_insert_lookup {χ : Type} (l : List (UInt8 × χ)) (hnd : (l.map (·.1)).Nodup) :
+    (∀ c, (ArtNode.build l).findChild c = ArtNode.assoc c l) ∧
+    (ArtNode.build l).num = l.length ∧
+    (ArtNode.build l).kind = ArtNode.kindFor l.length ∧
+    (∀ c x, (c, x) ∈ (ArtNode.build l).children ↔ (ArtNode.build l).findChild c = some x) ∧
+    (ArtNode.build l).children.Pairwise (fun a b => a.1 < b.1) := by
+  obtain ⟨hw, hf, hn⟩ := ArtNode.build_spec l hnd
+  obtain ⟨hc1, hc2⟩ := ArtNode.children_spec _ hw
+  exact ⟨hf, hn, ArtNode.build_kind l hnd, hc1, hc2⟩
+
+/-- one `addChild` on any well-formed node: the new byte maps to the new child, nothing else changes, and the node grows to
+    the next kind exactly when it was full -/
+theorem artnode_addChild {χ : Type} (n : ArtNode.Node χ) (hw : n.WF) (c : UInt8) (x : χ) (hc : n.findChild c = none) :
+    (n.addChild c x).WF ∧ (∀ c', (n.addChild c x).findChild c' = (if c' = c then some x else n.findChild c')) ∧
+    (n.addChild c x).num = n.num + 1 ∧
+    (n.addChild c x).kind = (if n.num < ArtNode.capOf n then n.kind else ArtNode.nextKind n.kind) := by
+  obtain ⟨h1, h2⟩ := ArtNode.addChild_spec n hw c x hc
+  obtain ⟨h3, h4⟩ := ArtNode.addChild_kind_num n hw c x
+  exact ⟨h1, h2, h3, h4⟩
+
+/-- `replaceChild` (used when a leaf is expanded into a node and when a prefix is split) changes exactly the child of the given
+    byte; on an absent byte it is the "replace child failed" panic -/
+theorem artnode_replaceChild {χ : Type} (n : ArtNode.Node χ) (hw : n.WF) (c : UInt8) (x : χ) :
+    (n.findChild c = none → n.replaceChild c x = none) ∧
+    (∀ y, n.findChild c = some y → ∃ n', n.replaceChild c x = some n' ∧ n'.WF ∧
+      ∀ c', n'.findChild c' = (if c' = c then some x else n.findChild c')) :=
+  ArtNode.replaceChild_spec n hw c x
+
 /-! ## non-vacuity of the hypotheses -/
 
+example : (ArtNode.Node.empty : ArtNode.Node Nat).WF := ⟨by simp [ArtNode.SortedK], rfl, by simp [ArtNode.cap4]⟩
+example : ([(5, 1), (3, 2), (9, 3)] : List (UInt8 × Nat)).map (·.1) |>.Nodup := by decide
 example : Inv VLog.init := inv_init
 example : Inv (VLog.init.run [.set [1] [2] [], .staging, .set [1] [3, 4] [4], .checkpoint]).1 :=
   (run_refines inv_init _).2
